@@ -4,13 +4,14 @@ import copy
 import numpy as np
 
 from .common import pp, Inst, setcol
-from . import c02, c12
+from . import c01, c02, c12
 
 PROPERTY = "C03"
 LEVEL = "model_checking"
 FUNCTIONS = [("pandapower.results_branch", "_get_line_results"), ("pandapower.results_branch", "_get_trafo_results"),
              ("pandapower.results_branch", "_get_trafo3w_results"), ("pandapower.build_branch", "_calc_line_parameter"),
-             ("pandapower.build_branch", "_calc_trafo_parameter"), ("pandapower.pypower.makeYbus", "branch_vectors")]
+             ("pandapower.build_branch", "_calc_trafo_parameter"), ("pandapower.pypower.makeYbus", "branch_vectors"),
+             ("pandapower.pf.run_newton_raphson_pf", "_get_numba_functions"), ("pandapower.pf.pfsoln_numba", "pf_solution_single_slack")]
 STUBS = ["passivity is decided on the two-port the real builders produce: p_loss(V) = V^H H V with H the Hermitian part of (Yff Yft; Ytf Ytt); "
          "H positive semidefinite (principal minors >= 0) for all parameter values means pl_mw >= 0 for every voltage"]
 ASSUMPTIONS = ["r >= 0, g >= 0, pfe >= 0, x != 0; parameters as in C02", "global conservation = per-bus balance (C01) summed over buses + pl = p_from + p_to (here)"]
@@ -111,6 +112,8 @@ def make_passive_trafo():
 def instances(tier):
     return [Inst("pl_identities_ac", make_pl(True), nvars=40, samples=2, raises=(UserWarning,), meta=dict(part="a", ac=True)),
             Inst("pl_identities_dc", make_pl(False), nvars=40, samples=2, raises=(UserWarning,), meta=dict(part="a", ac=False)),
+            Inst("single_slack_fast_path", c01.make_shortcut(), nvars=30, samples=2, timeout_ms=120000,
+                 meta=dict(part="c", note="slack P of the fast result extraction (losses + demand) equals the general extraction whenever it is selected")),
             Inst("passive_line", make_passive_line(), nvars=20, samples=2, timeout_ms=120000, meta=dict(part="b", element="line")),
             Inst("passive_trafo_pi", make_passive_trafo(), nvars=30, samples=2, timeout_ms=120000, meta=dict(part="b", element="trafo pi"))]
 
